@@ -1,4 +1,4 @@
-use std::collections::HashMap;
+use std::collections::{BTreeMap, HashMap};
 
 use aho_corasick::{AhoCorasickBuilder, AhoCorasickKind};
 use regex::{RegexBuilder, RegexSetBuilder};
@@ -83,7 +83,8 @@ pub fn matrix(expression: Expression) -> Expression {
                 scratch.push(matrix(expression));
             }
 
-            let mut fields: HashMap<String, u32> = HashMap::new();
+            // NOTE: Ordered maps, so that the optimised expression does not depend on hash seeds
+            let mut fields: BTreeMap<String, u32> = BTreeMap::new();
             for expression in &scratch {
                 match expression {
                     Expression::BooleanGroup(BoolSym::And, expressions) => {
@@ -627,7 +628,7 @@ fn shake_1(expression: Expression) -> Expression {
         Expression::BooleanGroup(BoolSym::And, expressions) => {
             let length = expressions.len();
 
-            let mut nested = HashMap::new();
+            let mut nested = BTreeMap::new();
 
             let mut scratch = vec![];
 
@@ -671,9 +672,9 @@ fn shake_1(expression: Expression) -> Expression {
         Expression::BooleanGroup(BoolSym::Or, expressions) => {
             let length = expressions.len();
             let expressions = {
-                let mut needles = HashMap::new();
-                let mut nested = HashMap::new();
-                let mut patterns = HashMap::new();
+                let mut needles = BTreeMap::new();
+                let mut nested = BTreeMap::new();
+                let mut patterns = BTreeMap::new();
 
                 // NOTE: Order is crucial here just like in the parser, thus we copy its ideal
                 // ordering.
